@@ -128,11 +128,13 @@ class TreeModel:
             it.trace.append(Effect("call", nm, tuple(snap(a) for a in args), {}, node=call, fn=fn))
             alts = args[1]
             return alts[0] if isinstance(alts, list) and alts else Sym("chosen")
-        if nm in ("random_int", "randint") and isinstance(call.func, ast.Attribute):
+        if nm in ("random_int", "randint", "random_float", "random_bool") and isinstance(call.func, ast.Attribute):
             key = f"{fn.name}:{nm}"
+            recv = it.ev(call.func.value, env, 9)
+            it.trace.append(Effect("call", nm, tuple(args), dict(kwargs), node=call, fn=fn, recv=recv))
             if key in self.ints:
                 return self.ints[key]
-            return UNKNOWN
+            return Sym(f"{nm}()")
         if nm == "number_of_nodes":
             return 1
         if nm == "get_weighted_nodes" and len(args) == 1:
